@@ -2,6 +2,5 @@ SPECIFICATION Spec
 CONSTANTS
   MaxDepth = 1
   Mint = FALSE
-CONSTANT U <- MCU
 INVARIANTS SandboxClosed
 CHECK_DEADLOCK FALSE
